@@ -84,6 +84,7 @@ class CHECK(FloCheck):
         return self._strip(floeng.run_impl(case["prog"], self.WANT))
 
     def model_post(self, case, replies):
+        self.note_flags(replies[0])
         return self._strip(floeng.model_lines(replies[0], self.WANT))
 
     def oracle(self, case, out):
